@@ -308,7 +308,9 @@ def func_adl_parameterized_call(
     return decorator
 
 
-def _fill_in_default_arguments(func: Callable, call: ast.Call) -> Tuple[ast.Call, Type]:
+def _fill_in_default_arguments(
+    func: Callable, call: ast.Call, fill_in_defaults: bool = True
+) -> Tuple[ast.Call, Type]:
     """Given a call and the function definition:
 
     * Defaults are filled in
@@ -341,7 +343,9 @@ def _fill_in_default_arguments(func: Callable, call: ast.Call) -> Tuple[ast.Call
     arg_array = list(call.args)
     keywords = list(call.keywords)
     for param in sig.parameters.values():
-        if param.name != "self":
+        # The stream operators (Select, Where, ...) keep exactly what the user wrote - their
+        # extra parameters are for internal use only.
+        if param.name != "self" and fill_in_defaults:
             if len(arg_array) <= i_arg:
                 # See if they specified it as a keyword
                 a, keywords = _find_keyword(keywords, param.name)
@@ -352,6 +356,7 @@ def _fill_in_default_arguments(func: Callable, call: ast.Call) -> Tuple[ast.Call
                     arg_array.append(a)
                 else:
                     raise ValueError(f"Argument {param.name} is required")
+            i_arg += 1
 
     # If we are making a change to the call, put in a reference back to the
     # original call.
@@ -650,7 +655,9 @@ def remap_by_types(
             for base_obj in base_obj_list:
                 # Do basic static analysis without doing any call backs.
                 default_args_node, return_annotation_raw = _fill_in_default_arguments(
-                    base_obj.method, r_node
+                    base_obj.method,
+                    r_node,
+                    fill_in_defaults=base_obj.method_class is not ObjectStream,
                 )
                 return_annotation = resolve_type_vars(
                     return_annotation_raw, base_obj.obj_type, at_class=base_obj.method_class
